@@ -34,6 +34,8 @@ var (
 	padBase     int // number of fault cases (pad cases follow)
 	padWidths   int
 	refCache    = map[string]classifier.Results{}
+	accentDoc   string
+	padWorld    []int // world index per pad input
 )
 
 const bufSize = 1024 // the property statement's "bufsize" (pad widths 0..2*bufsize+8)
@@ -61,7 +63,22 @@ func setup(args map[string]string, tier string) error {
 	for i := 0; i < len(docs); i += 9 {
 		small = append(small, docs[i])
 	}
-	worlds = []world{{"full@0.8", full}, {"small@0.7", v2kit.Build(0.7, small)}, {"small@1.0", v2kit.Build(1.0, small)}}
+	// a user-added document made of accented words: its text is full of
+	// two-byte runes, so every read-buffer refill leaves continuation bytes
+	// behind in the buffer
+	var acc strings.Builder
+	for i := 0; acc.Len() < 2600; i++ {
+		acc.WriteString([]string{"résumé", "café", "naïve", "señor", "über", "élève", "façade", "jalapeño", "crème", "brûlée", "déjà", "vu"}[i%12])
+		if i%10 == 9 {
+			acc.WriteByte('\n')
+		} else {
+			acc.WriteByte(' ')
+		}
+	}
+	acc.WriteString("fin")
+	accentDoc = acc.String()
+	accWorld := append(append([]v2kit.Doc(nil), small...), v2kit.Doc{Category: "License", Name: "Verif-Accents", Variant: "license.txt", Data: []byte(accentDoc)})
+	worlds = []world{{"full@0.8", full}, {"small@0.7", v2kit.Build(0.7, small)}, {"small@1.0", v2kit.Build(1.0, small)}, {"small+accent-doc@0.8", v2kit.Build(0.8, accWorld)}}
 
 	// --- enumerated inputs -------------------------------------------------
 	mk := func(desc, s string) v2kit.Input { return v2kit.Input{Desc: desc, Data: []byte(s)} }
@@ -118,10 +135,13 @@ func setup(args map[string]string, tier string) error {
 		mk("mit+multibyte-tail", mit+"\nCopyright © 2020 — Example 中文 Holder\n"),
 		mk("truncated-rune-at-eof", "Copyright 2019 Foo\n"+apacheHdr+"\nsome license\xc3"),
 		mk("truncated-3of4-at-eof", apacheHdr+"\nterms \xf0\x9f\x98"),
+		mk("accent-doc+truncated-lead-byte", "preamble words\n"+accentDoc+"\xc3"),
 	}
+	padWorld = []int{0, 0, 0, 3}
 	if tier == "thorough" {
 		padInputs = append(padInputs, mk("multibyte-2300", mb.String()), v2kit.Input{Desc: "scenario:" + scs[0].Name, Data: scs[0].Data},
 			mk("invalid-mid", "MIT License\n\xff\xfe "+mit+" \x80\x80"), mk("only-truncated", "\xe2\x82"))
+		padWorld = append(padWorld, 0, 0, 0, 0)
 	}
 	padWidths = 2*bufSize + 8 + 1
 	return nil
@@ -151,7 +171,7 @@ func (enum) RunCase(i int, c *hlib.Ctx) *hlib.Run {
 	j := i - padBase
 	in := padInputs[j/padWidths]
 	pad := j % padWidths
-	return equalRun(c, worlds[0], in, pad, []int{2, 0, 1, 3, 4}[pad%5], true)
+	return equalRun(c, worlds[padWorld[j/padWidths]], in, pad, []int{2, 0, 1, 3, 4}[pad%5], true)
 }
 
 func reference(w world, in v2kit.Input) classifier.Results {
@@ -357,7 +377,7 @@ func drawPad(s *choice.Stream) int {
 
 func seededRun(c *hlib.Ctx) *hlib.Run {
 	s := c.S
-	w := worlds[s.Pick([]int{5, 2, 2}, "world")]
+	w := worlds[s.Pick([]int{5, 2, 2, 1}, "world")]
 	maxLen := []int{0, 0, 1030, 2060, 5000, 200000}[s.Draw(6, "maxlen")]
 	in := pool.Gen(s, maxLen)
 	pad := drawPad(s)
@@ -394,7 +414,7 @@ func main() {
 				"real_code":       []string{"v2 classifier (tokenizer, searchset, scoring, diff), go-diff: compiled unmodified from the tree under test"},
 				"simulated":       []string{"io.Reader handed to MatchFrom: fragmentation, zero-length reads, data-with-EOF, sticky faults of 5 kinds in 2 delivery forms"},
 				"enumerated":      fmt.Sprintf("%d fault cases = every offset 0..len of %d inputs x 5 error kinds x 2 delivery forms; %d pad cases = every width 0..%d of %d inputs", padBase, len(faultInputs), len(padInputs)*padWidths, padWidths-1, len(padInputs)),
-				"worlds":          []string{"full embedded corpus @0.8", "every 9th document @0.7", "every 9th document @1.0"},
+				"worlds":          []string{"full embedded corpus @0.8", "every 9th document @0.7", "every 9th document @1.0", "every 9th document plus a user-added document of accented words @0.8"},
 				"fault_free_runs": "seeded runs with index%3 != 2; faults only in runs with index%3 == 2 (separate configurations)",
 			}
 		},
